@@ -76,6 +76,16 @@ def make_world(seed, jitter):
                     cands.append(("extended-5prime-with-tail", [(ex[0][0] - rng.randint(420, 600), ex[0][1])] + ex[1:]))
                 if t.strand == "-":
                     cands.append(("extended-5prime-with-tail", ex[:-1] + [(ex[-1][0], ex[-1][1] + rng.randint(420, 600))]))
+                # every second non-conforming read additionally carries a small, tolerated deviation: a terminal exon 15-40 bp longer than the
+                # annotated one (the major change must still decide the verdict)
+                with_minor = []
+                for ci_, (cls, e2) in enumerate(cands):
+                    if ci_ % 2 == 0 and cls in ("skipped-exon", "extra-exon", "retained-intron", "shifted-site") and e2[0] == ex[0] and e2[-1] == ex[-1] \
+                            and ex[0][0] > 200:
+                        d_ = rng.randint(15, 40)
+                        e3 = [(e2[0][0] - d_, e2[0][1])] + e2[1:] if ci_ % 4 == 0 else e2[:-1] + [(e2[-1][0], e2[-1][1] + d_)]
+                        with_minor.append((cls, e3))
+                cands += with_minor
                 for cls, e2 in cands:
                     if e2[0][0] < 10 or e2[-1][1] > w.chrom_len(t.chrom) - 10:
                         continue
@@ -136,7 +146,7 @@ def run(chk, scratch):
     thorough = chk.tier == "thorough"
     chk.rule = ("worlds with multi-isoform, overlapping (shared exons) and antisense genes on both strands over 3 chromosomes; conforming reads derived from annotated "
                 "isoforms (exact, 5'/3'/both-side truncated, junction jitter <= delta, exonic indels, =/X CIGAR operations with mismatching bases, polyA/polyT at the 3' end, mono-exonic) and non-conforming reads "
-                "(skipped exon >= 150 bp, extra exon, retained intron, intron retained inside a terminal exon by a read sharing its intron chain with an end-extended read, site shifted >= 110 bp, end extended >= 420 bp, terminal block running 350-500 bp into an intron, 5' end extended >= 420 bp on a read whose 3' end carries a polyA/polyT tail, hidden isoforms); matching presets x data types. "
+                "(skipped exon >= 150 bp, extra exon, retained intron, intron retained inside a terminal exon by a read sharing its intron chain with an end-extended read, site shifted >= 110 bp, end extended >= 420 bp, terminal block running 350-500 bp into an intron, 5' end extended >= 420 bp on a read whose 3' end carries a polyA/polyT tail, hidden isoforms; half of them with a tolerated 15-40 bp terminal extension on top); matching presets x data types. "
                 "non-trivial = distinct (isoform exon count, read mode, jitter, polyA, preset) among judged reads whose locus has >= 2 isoforms")
     jobs = []
     presets = ["exact", "precise", "default", "loose"]
